@@ -140,7 +140,7 @@ type v41srv struct {
 	tbls []string
 }
 
-func v41setup() *v41srv {
+func v41setup(withUsers bool) *v41srv {
 	options.BuiltDate = "Dec 29 2020 12:34"
 	options.Action = "server"
 	Exit = func(int) { panic("core.Exit called") }
@@ -159,8 +159,10 @@ func v41setup() *v41srv {
 	}
 	ut := db.NewUpdateTran()
 	th := &Thread{}
-	qry.DoAction(th, ut, "insert { user: 'fred', passhash: '123' } into users")
-	qry.DoAction(th, ut, "insert { user: 'nopass', passhash: '' } into users")
+	if withUsers {
+		qry.DoAction(th, ut, "insert { user: 'fred', passhash: '123' } into users")
+		qry.DoAction(th, ut, "insert { user: 'nopass', passhash: '' } into users")
+	}
 	qry.DoAction(th, ut, "insert { k: 1, v: 'top secret' } into secret")
 	qry.DoAction(th, ut, "insert { name: 'Foo', group: -1, text: 'function () { 123 }' } into stdlib")
 	ut.Commit()
@@ -420,6 +422,93 @@ func (t *v41trace) Fail(sig, desc string) {
 	}
 }
 
+// v41lateUsers: "when the database has users" must be decided when a connection is made, not
+// once: a client connects while the users table is still empty (such a connection is open by
+// design), then the first user is created, then NEW connections are made. Those must be behind
+// the wrapper like on any server with users.
+func v41lateUsers(tr *v41trace, r *rand.Rand) {
+	s := v41setup(false)
+	early := s.connect()
+	if ok, _, _ := early.request(r, 1, (&v41msg{}).byte_(byte(commands.GetOne)).byte_('+').int_(0).
+		str(Pack(SuObjectOf(SuStr("secret")))).b, true); ok {
+		tr.Count("late-users:open-before-users")
+	}
+	// the first user appears: directly, or through the early (open) connection
+	if r.Intn(2) == 0 {
+		ut := s.db.NewUpdateTran()
+		qry.DoAction(s.th, ut, "insert { user: 'fred', passhash: '123' } into users")
+		ut.Commit()
+		tr.Count("late-users:created-locally")
+	} else {
+		ok, rest, _ := early.request(r, 1, (&v41msg{}).byte_(byte(commands.Transaction)).bool_(true).b, true)
+		if !ok {
+			panic("late-users: early connection cannot start a transaction")
+		}
+		rb := mux.ReadBuf{}
+		rb.SetBuf(rest)
+		tn := int64(rb.GetInt())
+		early.request(r, 1, (&v41msg{}).byte_(byte(commands.Action)).int_(tn).str("insert { user: 'fred', passhash: '123' } into users").b, true)
+		early.request(r, 1, (&v41msg{}).byte_(byte(commands.Commit)).int_(tn).b, true)
+		tr.Count("late-users:created-by-client")
+	}
+	if !s.db.HaveUsers() {
+		panic("late-users: user not created")
+	}
+	tr.Q("reset "+lib.Xs([]string{"fred", "123"}), "ok")
+	g := &v41gen{r: r}
+	for ci := 0; ci < 2; ci++ {
+		k := s.connect()
+		serverConnsLock.Lock()
+		_, wrapped := serverConns[k.id].dbms.(*DbmsUnauth)
+		serverConnsLock.Unlock()
+		if !wrapped {
+			tr.Fail("unauth-after-users-created:not-wrapped", fmt.Sprintf("the users table has a user but new connection #%d is not behind DbmsUnauth (an earlier connection was made while users was empty)", ci))
+		}
+		for idx := 0; idx < len(cmds)-1; idx++ {
+			name := commands.Command(idx).String()
+			if v41allowed[name] || name == "Token" || name == "Log" {
+				continue
+			}
+			for _, tn0 := range []bool{true, false} {
+				nAns := 0
+				for v := 0; v < 4 && !k.dead; v++ {
+					payload := g.build(idx, tn0, v)
+					ok, rest, _ := k.request(r, 2, payload, true)
+					if ok {
+						nAns++
+						tr.Fail("unauth-answered:cmd"+name, fmt.Sprintf("users were created after the first connection; NEW unauthenticated connection, request %x (%s) answered ok, reply %x", payload, name, v41tail(rest, 40)))
+					}
+				}
+				cls := "!refused"
+				if nAns == 4 {
+					cls = "answered"
+				} else if nAns > 0 {
+					cls = "mixed"
+				}
+				tr.Q(fmt.Sprintf("u %d %d %s", ci, idx, lib.B(tn0)), cls)
+				tr.Count("late-users:u:" + cls)
+			}
+		}
+		// and it can authenticate the normal way
+		_, rest, _ := k.request(r, 1, (&v41msg{}).byte_(byte(commands.Nonce)).b, true)
+		nonce := v41getStr(rest)
+		tr.Q(fmt.Sprintf("nonce %d %s", ci, lib.X(nonce)), "ok")
+		h := sha1.Sum([]byte(nonce + "123"))
+		cred := "fred\x00" + string(h[:])
+		ok, rest, _ := k.request(r, 1, (&v41msg{}).byte_(byte(commands.Auth)).str(cred).b, true)
+		out := "!already"
+		if ok {
+			out = lib.B(len(rest) == 1 && rest[0] == 1)
+		}
+		tr.Q(fmt.Sprintf("auth %d %s", ci, lib.X(cred)), out)
+		k.c.Close()
+	}
+	early.c.Close()
+	for i := 0; i < 2000 && len(v41connIds()) > 0; i++ {
+		time.Sleep(time.Millisecond)
+	}
+}
+
 // ---- the suite ------------------------------------------------------------------------------
 
 type v41tok struct {
@@ -433,7 +522,8 @@ func TestVerifC41Unauth(t *testing.T) {
 	tr := &v41trace{Trace: tr0, seen: map[string]int{}}
 	r := lib.Rand()
 	n := lib.N(60)
-	s := v41setup()
+	v41lateUsers(tr, r)
+	s := v41setup(true)
 	ncmds := len(cmds)
 	users := []string{"fred", "123", "nopass", ""}
 
